@@ -106,5 +106,25 @@ CHECKS["C10"] = dict(
     design_ref="DESIGN.md §5 C10", note=_TV_NOTE + " dsharp itself is outside the repository.",
     technique="translation validation of every compiled circuit by TLC against TLA+ d-DNNF definitions (Circuit.tla)")
 
+_TERM_NOTE = ("Trusted: TLC + spec/TermAlgebra.tla (Robinson mgu with occurs check, variants, standard order), the term "
+              "renderer / result converter (vlib/terms.py). Bounded universe: depth <= 2 over atoms, quoted atoms, ints, "
+              "dyadic floats, strings, f/1, g/2, lists, 3 variables; sampled pairs. No SWI-Prolog in the sandbox: the TLA+ "
+              "module is the reference.")
+CHECKS["C14"] = dict(
+    category="exploration",
+    text="Term pairs (universe pairs, mutated copies, occurs-check shapes) are run on the real engine four ways - X = Y, "
+         "X \\= Y, call against a fact head, call against a rule head - and TLC judges every outcome with TermAlgebra!Mgu: "
+         "success iff unifiable, bindings a variant of the mgu, \\= the complement of =, an error only where some "
+         "unification order needs an occurs-check violation.",
+    design_ref="DESIGN.md §5 C14", note=_TERM_NOTE,
+    technique="TLA+ reference unifier (TermAlgebra.tla) evaluated by TLC on recorded outcomes of the real engine")
+CHECKS["C15"] = dict(
+    category="exploration",
+    text="compare/3, @<, @=<, @>, @>=, ==, \\== on a full number grid (multi-digit, negative, float/int ties) and sampled "
+         "pairs of ground terms and variable-vs-term pairs, and sort/2 on random lists, are judged by TLC against "
+         "TermAlgebra!StdCmp / SortUnique.",
+    design_ref="DESIGN.md §5 C15", note=_TERM_NOTE + " Strings and the order among distinct variables are not judged.",
+    technique="TLA+ standard-order definition (TermAlgebra.tla) evaluated by TLC on recorded outcomes of the real builtins")
+
 NOT_YET = "check not built yet in this round (planned in DESIGN.md §5); not claimed"
 NOT_APPLICABLE = {}
